@@ -5,8 +5,7 @@ from . import c01
 PROP_ID = "C10"
 FEATURE = "c10"
 ENGINE = "E1 kani-cbmc"
-QUICK_MAX_S = 125
-QUICK_MAX_S = 125
+QUICK_MAX_S = 200
 FUNCTIONS = ["decoder.rs parse_local_ext (capture of the raw bytes)", "encoder.rs encode_pid_impl / encode_port_impl / encode_reference_impl (replay)",
              "derived Clone of ExternalPid/Port/Reference (Bytes), BorrowedTerm::from(&OwnedTerm) and to_owned", "logical ==/hash/cmp: see C11/C12 shapes pidl/portl/refl"]
 ASSUMPTIONS = c01.ASSUMPTIONS + ["the round trip is decided as the chain D (decode keeps bytes) + E (encode replays bytes), not in one query"]
